@@ -244,7 +244,7 @@ func (w *World) verifyOnce(fn *ssa.Function, ct *Contract, opts VerifyOpts, cuts
 			continue
 		}
 		nret++
-		if nret <= 64 {
+		if nret <= 512 {
 			e.cover(o.St, "return")
 		}
 		if ct == nil {
